@@ -6,6 +6,7 @@
 -/
 import Jence.Lemmas.Attack
 import Jence.Lemmas.TableLift
+import Jence.Lemmas.AttackSym
 namespace Jence.Props.C15
 open Jence
 
@@ -58,6 +59,18 @@ theorem lookup_bishop (sq : Nat) (hsq : sq < 64) (occ : UInt64) : getBishopAttac
 theorem lookup_queen (sq : Nat) (hsq : sq < 64) (occ : UInt64) :
     getQueenAttacks sq occ = Spec.slideRook sq occ ||| Spec.slideBishop sq occ := by
   unfold getQueenAttacks; rw [lookup_rook sq hsq, lookup_bishop sq hsq]
+
+/-- the lookups are symmetric: `t` is attacked from `s` iff `s` is attacked from `t`, for the same occupancy (what the
+    reverse lookup of `is_square_attacked` relies on); the pawn tables mirror each other -/
+theorem lookup_symmetric (s t : Nat) (hs : s < 64) (ht : t < 64) (occ : UInt64) :
+    (getBit (getRookAttacks s occ) t = true → getBit (getRookAttacks t occ) s = true) ∧
+    (getBit (getBishopAttacks s occ) t = true → getBit (getBishopAttacks t occ) s = true) ∧
+    (getBit (getQueenAttacks s occ) t = true → getBit (getQueenAttacks t occ) s = true) ∧
+    getBit (getKnightAttacks s) t = getBit (getKnightAttacks t) s ∧
+    getBit (getKingAttacks s) t = getBit (getKingAttacks t) s ∧
+    getBit (getPawnAttacks s true) t = getBit (getPawnAttacks t false) s :=
+  ⟨rookAttacks_symm s t hs ht occ, bishopAttacks_symm s t hs ht occ, queenAttacks_symm s t hs ht occ,
+   (leapers_symm s hs t ht).1, (leapers_symm s hs t ht).2.1, (leapers_symm s hs t ht).2.2⟩
 
 /-- **T15.5** PDEP after PEXT with the same mask keeps exactly the masked bits (the index round trip of the table) -/
 theorem pdep_after_pext (x m : UInt64) : pdep (pext x m) m = x &&& m := pdep_pext x m
